@@ -425,7 +425,13 @@ def run_unit(pid, jobs, tier, seed=0, only=None):
             continue
         if info.get("degraded"):
             # only counterexamples count; nothing is proved
-            bad = [o for o in rest if o.status == "FAILURE" and "unwinding assertion" not in o.desc
+            # ... and only obligations of the specification itself (harness assertions, contract clauses, GUARANTEEs,
+            # the library's own assert()s): generic safety checks in code that now runs outside its contracts are noise
+            def spec_obl(o):
+                pr = o.prop or ""
+                return (o.func == job.harness or ".precondition." in pr or ".postcondition." in pr or
+                        o.desc.startswith("GUARANTEE") or ".assertion." in pr)
+            bad = [o for o in rest if o.status == "FAILURE" and "unwinding assertion" not in o.desc and spec_obl(o)
                    and not any(p_ in ("*", pid) and rx.search(o.key()) for (p_, rx, r_) in benign)
                    and not any(p_ == pid and rx.search(o.key()) for (p_, rx, t_) in known)]
             for o in bad:
